@@ -11,6 +11,7 @@ import (
 	"github.com/pdfcpu/pdfcpu/pkg/pdfcpu/model"
 	"verif/mc/core"
 	"verif/mc/docgen"
+	"verif/mc/isocrypt"
 )
 
 // C26: restricted documents refuse operations their permissions deny.
@@ -18,9 +19,9 @@ func init() {
 	core.Register(&core.Check{
 		ID:    "C26",
 		Level: "exploration",
-		Rule: "every command mode of pdfcpu's own classification table x every combination of the permission bits 3,4,5,10,11,12 (64 words) x {RC4-40 (R2), RC4-128 (R4), AES-128 (R4), AES-256 (R6)}: the document is encrypted by pdfcpu with that word and opened through ReadContext with only the user password and conf.Cmd = mode; refusal expected iff (mode needs extract and the extract bit for that revision is clear) or (mode needs modify and the modify bit is clear); " +
+		Rule: "every command mode of pdfcpu's own classification table x every combination of the permission bits 3,4,5,10,11,12 (64 words) x {RC4-40 (R2), RC4-128 (R4), AES-128 (R4), AES-256 (R6)} written by pdfcpu plus {R2, R3 with 40 and 128 bit keys, R4 AES, R5, R6} documents built by the harness' independent ISO 32000 implementation: the document is encrypted with that word and opened through ReadContext with only the user password and conf.Cmd = mode; refusal expected iff (mode needs extract and the extract bit for that revision is clear) or (mode needs modify and the modify bit is clear); " +
 			"non-trivial = a mode that needs extract or modify rights",
-		Assume: []string{"the classification of commands is pdfcpu's own table (the property is relative to it); which bit governs which right per revision is taken from pdfcpu's documented permission list (R2: bit 5 extract, bit 4 modify; R>=3: bit 10 extract, bit 11 modify)", "R3 files are not written by pdfcpu and are not covered until harness-built encrypted files exist (C24)"},
+		Assume: []string{"the classification of commands is pdfcpu's own table (the property is relative to it); which bit governs which right per revision is taken from pdfcpu's documented permission list (R2: bit 5 extract, bit 4 modify; R>=3: bit 10 extract, bit 11 modify)", "R3 and R5 files are not written by pdfcpu: they come from the harness' own security-handler implementation (mc/isocrypt), which C24 validates against pdfcpu in both directions"},
 		Run:    runC26,
 	})
 }
@@ -38,8 +39,10 @@ func runC26(r *core.R) {
 		aes  bool
 		kl   int
 		rev  int
+		iso  bool // built by the harness' independent ISO 32000 implementation (revisions pdfcpu does not write)
 	}
-	algs := []alg{{"RC4-40", false, 40, 2}, {"RC4-128", false, 128, 4}, {"AES-128", true, 128, 4}, {"AES-256", true, 256, 6}}
+	algs := []alg{{"RC4-40", false, 40, 2, false}, {"RC4-128", false, 128, 4, false}, {"AES-128", true, 128, 4, false}, {"AES-256", true, 256, 6, false},
+		{"iso:RC4-128/R3", false, 128, 3, true}, {"iso:RC4-40/R3", false, 40, 3, true}, {"iso:RC4-40/R2", false, 40, 2, true}, {"iso:AES-128/R4", true, 128, 4, true}, {"iso:AES-256/R5", true, 256, 5, true}, {"iso:AES-256/R6", true, 256, 6, true}}
 	bits := []int{0x4, 0x8, 0x10, 0x200, 0x400, 0x800}
 	src := docgen.Marked(2, 0)
 	type fixture struct {
@@ -61,6 +64,13 @@ func runC26(r *core.R) {
 	}
 	core.ParFor(len(fx), func(i int) {
 		f := &fx[i]
+		if f.alg.iso {
+			id0 := []byte("0123456789abcdef")
+			pdf, _, _ := isocrypt.BuildEncryptedPDF(isocrypt.DocSpec{R: f.alg.rev, AES: f.alg.aes, KeyBits: f.alg.kl, UserPw: []byte("u"), OwnerPw: []byte("o"),
+				P: int32(uint32(0xFFFF0000) | uint32(f.p)), ID0: id0, EncryptMetadata: true, Marker: "permission marker"})
+			f.b = pdf
+			return
+		}
 		var conf *model.Configuration
 		if f.alg.aes {
 			conf = model.NewAESConfiguration("u", "o", f.alg.kl)
